@@ -266,6 +266,86 @@ Proof. intros H L. pose proof (hi_mask data H) as M. rewrite L in M. exact M. Qe
 Lemma hd_movd x old : hd 0 (vput 16 (le_bytes4 x ++ repeat 0 12) old) = x mod 256.
 Proof. reflexivity. Qed.
 
+Lemma vlow_vput w (v old : list Z) : length v = w -> vlow w (vput w v old) = v.
+Proof.
+  intros H. unfold vlow, vput. rewrite firstn_app, firstn_firstn, Nat.min_id, firstn_length, H, Nat.min_id, Nat.sub_diag.
+  cbn [firstn]. rewrite app_nil_r. apply firstn_all2. lia.
+Qed.
+
+Lemma movmsk_small16 (v : list Z) : length v = 16%nat -> movmsk v mod two32 = movmsk v.
+Proof. intros H. pose proof (movmsk_range v) as R. rewrite H in R. change (2 ^ Z.of_nat 16) with 65536 in R. unfold two32. lia. Qed.
+
+(* ---------- byte matching through PCMPEQB ---------- *)
+
+(* what PCMPEQB leaves in a lane, as a function of the data byte *)
+Definition ind (f : Z -> bool) (b : Z) : Z := if f b then 255 else 0.
+
+Lemma fh_map_ind f v : fh (map (ind f) v) = index_byte_from f v 0.
+Proof.
+  unfold fh. generalize 0. induction v as [|b v IH]; intros i; [reflexivity|].
+  cbn [map index_byte_from]. unfold ind at 1. destruct (f b); [reflexivity|]. change (128 <=? 0) with false. cbv iota. apply IH.
+Qed.
+
+Lemma firstn_map2 f n : forall a b, firstn n (map2 f a b) = map2 f (firstn n a) (firstn n b).
+Proof.
+  induction n as [|n IH]; intros a b; [reflexivity|].
+  destruct a as [|x a]; [reflexivity|]. destruct b as [|y b]; [reflexivity|]. cbn [map2 firstn]. rewrite IH. reflexivity.
+Qed.
+
+Lemma map2_repeat_l f x : forall data, map2 f (repeat x (length data)) data = map (f x) data.
+Proof. induction data as [|b data IH]; [reflexivity|]. cbn [length repeat map2 map]. rewrite IH. reflexivity. Qed.
+
+Lemma vlow_vput_ge w lo old : (w <= length lo)%nat -> vlow w (vput w lo old) = firstn w lo.
+Proof.
+  intros H. unfold vlow, vput. rewrite firstn_app, firstn_firstn, Nat.min_id, firstn_length, Nat.min_l by exact H.
+  rewrite Nat.sub_diag. cbn [firstn]. apply app_nil_r.
+Qed.
+
+Lemma vlow_length_ge w v x : vlow w v = repeat x w -> (w <= length v)%nat.
+Proof. intros H. assert (L : length (vlow w v) = w) by (rewrite H; apply repeat_length). unfold vlow in L. rewrite firstn_length in L. lia. Qed.
+
+(* PCMPEQB X0, X1 after MOVOU: the low 16 lanes of the result *)
+Lemma cmp_low16 cc x0 x1 data old :
+  vlow 16 x0 = repeat cc 16 -> length data = 16%nat ->
+  vlow 16 (vput 16 (map2 (fun x y => if x =? y then 255 else 0) x0 (vput 16 data x1)) old) = map (ind (Z.eqb cc)) data.
+Proof.
+  intros H0 L. pose proof (vlow_length_ge 16 x0 cc H0) as L0.
+  rewrite vlow_vput_ge.
+  - rewrite firstn_map2. fold (vlow 16 x0). fold (vlow 16 (vput 16 data x1)). rewrite H0, (vlow_vput 16 data x1 L).
+    rewrite <- L at 1. apply (map2_repeat_l (fun x y => if x =? y then 255 else 0) cc data).
+  - rewrite map2_length. unfold vput. rewrite app_length, firstn_length, L. lia.
+Qed.
+
+(* POR X2, X1 then PCMPEQB X0, X1 after MOVOU: the case-insensitive variant *)
+Lemma cmp_or_low16 cc x0 x1 x2 data old :
+  vlow 16 x0 = repeat cc 16 -> vlow 16 x2 = repeat 32 16 -> length data = 16%nat ->
+  vlow 16 (vput 16 (map2 (fun x y => if x =? y then 255 else 0) x0
+                      (vput 16 (map2 Z.lor x2 (vput 16 data x1)) (vput 16 data x1))) old)
+  = map (ind (fun b => cc =? Z.lor 32 b)) data.
+Proof.
+  intros H0 H2 L. pose proof (vlow_length_ge 16 x0 cc H0) as L0. pose proof (vlow_length_ge 16 x2 32 H2) as L2.
+  assert (Lp : (16 <= length (vput 16 data x1))%nat) by (unfold vput; rewrite app_length, firstn_length, L; lia).
+  assert (E1 : vlow 16 (vput 16 (map2 Z.lor x2 (vput 16 data x1)) (vput 16 data x1)) = map (Z.lor 32) data).
+  { rewrite vlow_vput_ge by (rewrite map2_length; lia).
+    rewrite firstn_map2. fold (vlow 16 x2). fold (vlow 16 (vput 16 data x1)). rewrite H2, (vlow_vput 16 data x1 L).
+    rewrite <- L at 1. apply (map2_repeat_l Z.lor 32 data). }
+  rewrite vlow_vput_ge.
+  - rewrite firstn_map2. fold (vlow 16 x0). fold (vlow 16 (vput 16 (map2 Z.lor x2 (vput 16 data x1)) (vput 16 data x1))).
+    rewrite H0, E1. rewrite <- (map_length (Z.lor 32) data) in L. rewrite <- L at 1.
+    rewrite (map2_repeat_l (fun x y => if x =? y then 255 else 0) cc (map (Z.lor 32) data)). rewrite map_map. reflexivity.
+  - rewrite map2_length. unfold vput at 1. rewrite app_length, firstn_length, map2_length. lia.
+Qed.
+
+(* the byte broadcast MOVD; PUNPCKLBW; PUNPCKLBW; PSHUFL $0 *)
+Definition bcast16 (x : Z) (old : list Z) : list Z :=
+  let a := vput 16 (le_bytes4 x ++ repeat 0 12) old in
+  let b := vput 16 (interleave (firstn 8 a) (firstn 8 a)) a in
+  let c := vput 16 (interleave (firstn 8 b) (firstn 8 b)) b in
+  vput 16 (firstn 4 c ++ firstn 4 c ++ firstn 4 c ++ firstn 4 c) c.
+
+Lemma bcast16_low x old : vlow 16 (bcast16 x old) = repeat (x mod 256) 16.
+Proof. reflexivity. Qed.
+
 (* ---------- conditions ---------- *)
 
 Lemma signed64_small a : 0 <= a < two63 -> signed64 a = a.
@@ -336,3 +416,43 @@ Proof.
   rewrite E. rewrite (Z.mod_small (mj * P + ms * 65536)) by nia. rewrite Z.mod_small by nia.
   rewrite Z.div_add by lia. rewrite Z.div_small by lia. lia.
 Qed.
+
+(* VPCMPEQB Y1, Y2, Y3 with Y1 a broadcast byte and Y2 the 32 bytes just loaded *)
+Lemma cmp32 cc data x3 : length data = 32%nat -> (length x3 <= 32)%nat ->
+  vput 32 (map2 (fun x y => if x =? y then 255 else 0) (repeat cc 32) data) x3 = map (ind (Z.eqb cc)) data.
+Proof.
+  intros L H3. replace (repeat cc 32) with (repeat cc (length data)) by (rewrite L; reflexivity).
+  rewrite (map2_repeat_l (fun x y => if x =? y then 255 else 0) cc data).
+  apply vput_full; [rewrite map_length; exact L|exact H3].
+Qed.
+
+(* VPOR Y4, Y2, Y2 then VPCMPEQB Y1, Y2, Y3: the case-insensitive variant *)
+Lemma cmp_or32 cc data x3 : length data = 32%nat -> (length x3 <= 32)%nat ->
+  vput 32 (map2 (fun x y => if x =? y then 255 else 0) (repeat cc 32) (map (Z.lor 32) data)) x3 = map (ind (fun b => cc =? Z.lor 32 b)) data.
+Proof.
+  intros L H3. replace (repeat cc 32) with (repeat cc (length (map (Z.lor 32) data))) by (rewrite map_length, L; reflexivity).
+  rewrite (map2_repeat_l (fun x y => if x =? y then 255 else 0) cc (map (Z.lor 32) data)), map_map.
+  apply vput_full; [rewrite map_length; exact L|exact H3].
+Qed.
+
+Lemma or32 data old : length data = 32%nat -> (length old <= 32)%nat ->
+  vput 32 (map2 Z.lor (repeat 32 32) data) old = map (Z.lor 32) data.
+Proof.
+  intros L H3. replace (repeat 32 32) with (repeat 32 (length data)) by (rewrite L; reflexivity).
+  rewrite (map2_repeat_l Z.lor 32 data).
+  apply vput_full; [rewrite map_length; exact L|exact H3].
+Qed.
+
+(* SHLL len; SHRL $16 on the mask of [16-len stray lanes ++ the len lanes of t] leaves the mask of t *)
+Lemma shift_mask_gen (J t : list Z) : (1 <= length t <= 15)%nat -> length J = (16 - length t)%nat ->
+  ((movmsk (J ++ t) mod two32 * 2 ^ (Z.of_nat (length t) mod two32 mod 32) mod two32) mod two32 / 2 ^ (16 mod two64 mod 32)) mod two32 = movmsk t.
+Proof.
+  intros Hl LJ0. set (n := length t) in *.
+  pose proof (movmsk_range t) as Rs. fold n in Rs. pose proof (movmsk_range J) as RJ. rewrite LJ0 in RJ.
+  assert (Emsk : movmsk (J ++ t) = movmsk J + 2 ^ Z.of_nat (16 - n) * movmsk t) by (rewrite movmsk_app, LJ0; reflexivity).
+  change (16 mod two64) with 16. replace (Z.of_nat n mod two32) with (Z.of_nat n) by (unfold two32; lia).
+  rewrite Emsk. clear Emsk. rewrite (shift_out_junk (movmsk J) (movmsk t) n) by lia.
+  assert (H15 : 2 ^ Z.of_nat n <= 2 ^ 15) by (apply Z.pow_le_mono_r; lia). change (2 ^ 15) with 32768 in H15.
+  apply Z.mod_small. unfold two32. lia.
+Qed.
+
